@@ -130,8 +130,8 @@ def main(a):
                 prop, i = t
                 if prop == "C16":
                     i += 9000  # seeded sessions, not the enumerated no-initialize stream
-                return t, farm.run({"t": "realpipe", "gen": {"prop": prop, "tier": "quick", "seed": a.seed,
-                                                             "i": i}}, i % 2)
+                return t, farm.run({"t": "realpipe", "nthreads": [None, 1, 4, 16][i % 4],
+                                    "gen": {"prop": prop, "tier": "quick", "seed": a.seed, "i": i}}, i % 2)
 
             for t, r in farm_mod.pmap(one, tasks, 10):
                 if r.get("skipped"):
